@@ -1,15 +1,14 @@
 CONSTANTS
   Accounts = {1, 2}
   Contracts = {3}
-  JobIds = {1, 2}
+  JobIds = {1}
   Chains = {1, 2, 3, 4, 5}
   Targets = {1, 2}
   Payloads = {1, 2}
   Spellings = {"bare", "0x", "0X", "odd", "upper", "empty"}
-  MaxOps = 2
-  EmitAt = 0
-INIT GInit
-NEXT GNextC
-VIEW GView
-CONSTRAINT GConstr
+INIT Init
+NEXT Next
+VIEW MCView
+INVARIANTS TypeOK
+PROPERTIES PA_JobsImmutable PA_IdUnique PA_ExactlyOneCall PA_CallIsStoredCall PA_CallerAppended PA_FailureEnqueuesNothing
 CHECK_DEADLOCK FALSE
